@@ -37,9 +37,18 @@
 //! recorded peer count as `cp=<n|->`.
 //!   saveload           (registry := load(save(registry)))
 //!   reload             (drop the in-memory registry and continue from the registry FILE: the next antctl invocation)
+//!   cmd <add..|start..|stop..|remove..|upgrade..|refresh-full..>
+//!                      (one whole `antctl` invocation as cmd/node.rs makes it: load the registry from the file, the
+//!                       partial refresh if the command has one, service selection — `get_services_for_ops` does not
+//!                       find a service at Removed status —, the operation, the save. Whether a command refreshes and
+//!                       in which arm of the operation's result it saves is NOT hard-wired here: the harness follows
+//!                       the flags rs2lean reads from cmd/node.rs and bin/daemon/main.rs into
+//!                       lean/SafeNet/Gen/Lifecycle.lean — the same flags the model branches on.)
+//!   probe-moved-registry  (replay only: save, copy the file elsewhere, load the copy: where does the loaded registry save?)
 //! The registry file is written only by the code under test and by the harness where it plays the operation's caller
-//! in cmd/node.rs: `add`, `start`, `stop`, `remove` save after a successful operation only, `upgrade` saves whatever
-//! the outcome, a bare `refresh` does not save. `add_node` itself saves after every completed install.
+//! in cmd/node.rs, saving in the `Ok` / `Err` arm of the operation's result exactly where the generated flags
+//! (`<cmd>SavesOnOk`, `<cmd>SavesOnErr`, `daemonRestartSavesOn..`) say the source does; a bare `refresh` does not save.
+//! `add_node` itself saves after every completed install.
 //! Output: `<result> calls=<k> | R <svc>* | F <svc>* | OS inst=[..] procs=[..] dirs=[..] np=<next pid> npt=<next port>`
 //!   (R = in-memory registry, F = the registry file as left on disk, loaded without any harness save in between)
 //!   svc = `<name#>/<number>/<dir#>:<A|R|S|X>:pid=<p|->:np=<p|->:mp=<p|->:rp=<p>:v=<ver>:cp=<n|->:pe=<svc# of the recorded peer id|->:la=<udp port of listen_addr|->`
@@ -81,6 +90,46 @@ use std::panic::{catch_unwind, AssertUnwindSafe};
 use std::path::{Path, PathBuf};
 use std::sync::{Arc, Mutex};
 use std::time::Duration;
+
+// ---------------------------------------------------------------------------------------------
+// the command layer (cmd/node.rs, bin/daemon/main.rs) as rs2lean read it: one Bool per save / refresh site
+// ---------------------------------------------------------------------------------------------
+fn flags() -> &'static BTreeMap<String, bool> {
+    static FLAGS: OnceLock<BTreeMap<String, bool>> = OnceLock::new();
+    FLAGS.get_or_init(|| {
+        let path = std::env::var("C19_GEN_FILE")
+            .unwrap_or_else(|_| concat!(env!("CARGO_MANIFEST_DIR"), "/../../lean/SafeNet/Gen/Lifecycle.lean").to_string());
+        let text = match std::fs::read_to_string(&path) {
+            Ok(t) => t,
+            Err(e) => {
+                eprintln!("harness infrastructure failure: cannot read the generated flags {path}: {e}");
+                std::process::exit(3);
+            }
+        };
+        let mut m = BTreeMap::new();
+        for l in text.lines() {
+            // `def <name> : Bool := <true|false>`
+            let ws: Vec<&str> = l.split_whitespace().collect();
+            if let ["def", name, ":", "Bool", ":=", v] = ws.as_slice() {
+                m.insert(name.to_string(), *v == "true");
+            }
+        }
+        m
+    })
+}
+fn flag(name: &str) -> bool {
+    match flags().get(name) {
+        Some(b) => *b,
+        None => {
+            eprintln!("harness infrastructure failure: no generated flag `{name}` in Gen/Lifecycle.lean");
+            std::process::exit(3);
+        }
+    }
+}
+/// does the caller save after this outcome? (`cmd` = add | start | stop | remove | upgrade | status | daemonRestart)
+fn caller_saves(cmd: &str, ok_arm: bool) -> bool {
+    flag(&format!("{cmd}SavesOn{}", if ok_arm { "Ok" } else { "Err" }))
+}
 
 // ---------------------------------------------------------------------------------------------
 // simulated OS
@@ -449,6 +498,8 @@ struct World {
     /// an `install` may have written a service definition and then reported failure (fault kind 2 in an add / daemon
     /// restart): the code under test cannot know about that definition (clause installed-recorded-in-file is off)
     unrecorded_install: bool,
+    /// the harness, playing the operation's caller, saved the registry during the current line
+    saved_now: bool,
 }
 impl World {
     fn new(rt: std::rc::Rc<tokio::runtime::Runtime>) -> World {
@@ -464,6 +515,7 @@ impl World {
             killed: false,
             file_stale: false,
             unrecorded_install: false,
+            saved_now: false,
         }
     }
     fn data_base(&self) -> PathBuf {
@@ -638,6 +690,60 @@ fn res_unit(r: Result<(), MgrError>) -> String {
     }
 }
 
+/// The head of an `antctl` invocation (`cmd <op>`): load the registry from the file, run the partial refresh if the
+/// command does (flag `<cmd>RefreshFirst`), select the service (`get_services_for_ops`: not found at Removed status).
+/// `Err(result)` = the command ends here.
+fn cmd_entry(w: &mut World, op: &[&str]) -> Result<(), String> {
+    let ctl = Ctl(w.os.clone());
+    match load_file(w) {
+        Ok(r) => {
+            w.reg = r;
+            w.killed = w.file_stale;
+        }
+        Err(_) => return Err("err:load".into()),
+    }
+    let head = op.first().copied().unwrap_or("");
+    let targeted = matches!(head, "start" | "stop" | "remove" | "upgrade");
+    if targeted && flag(&format!("{head}RefreshFirst")) {
+        match w.rt.block_on(refresh_node_registry(&mut w.reg, &ctl, false, false, false)) {
+            Ok(()) => w.killed = false,
+            Err(e) => return Err(format!("err:{}", mgr_err(&e))),
+        }
+    }
+    if targeted {
+        if let Some(Ok(i)) = op.get(1).map(|i| i.parse::<usize>()) {
+            if i < w.reg.nodes.len() && w.reg.nodes[i].status == ServiceStatus::Removed {
+                return Err("err:no-such-service".into());
+            }
+        }
+    }
+    Ok(())
+}
+
+/// Replay-only probe of `NodeRegistry::load` (an observation outside the clauses).
+fn probe(w: &mut World, ws: &[&str]) -> Option<String> {
+    match ws {
+        ["probe-moved-registry"] => {
+            // a copy of the registry saved at a side path (the registry file proper is an observable and stays as it
+            // is), the file moved, loaded from its new place: where will the loaded registry save?
+            let mut side = w.reg.clone();
+            side.save_path = w.tmp.path().join("probe-registry.json");
+            if side.save().is_err() {
+                return Some("err:save".into());
+            }
+            let moved = w.tmp.path().join("probe-registry-moved.json");
+            if std::fs::rename(&side.save_path, &moved).is_err() {
+                return Some("err:move".into());
+            }
+            Some(match NodeRegistry::load(&moved) {
+                Ok(r) => format!("loaded-from=moved saves-to={}", if r.save_path == moved { "moved" } else if r.save_path == side.save_path { "original" } else { "elsewhere" }),
+                Err(_) => "err:load".into(),
+            })
+        }
+        _ => None,
+    }
+}
+
 /// Execute one op line on the real code. Returns the result class.
 fn exec_op(w: &mut World, ws: &[&str]) -> String {
     let ctl = Ctl(w.os.clone());
@@ -687,17 +793,20 @@ fn exec_op(w: &mut World, ws: &[&str]) -> String {
                 version: format!("0.1.{ver}"),
             };
             let r = w.rt.block_on(add_node(options, &mut w.reg, &ctl, VerbosityLevel::Minimal));
-            match r {
-                Ok(names) => {
-                    // cmd::node::add: `add_node(..).await?; node_registry.save()?;` (an error returns before the save)
-                    if let Err(e) = w.reg.save() {
-                        return format!("err:save:{}", svc_err(&e));
-                    }
-                    format!("ok:[{}]", names.iter().map(|n| num_suffix(n)).collect::<Vec<_>>().join(","))
+            // cmd::node::add: `add_node(..).await?; node_registry.save()?;` as read from the source (addSavesOnOk / OnErr)
+            if caller_saves("add", r.is_ok()) {
+                if let Err(e) = w.reg.save() {
+                    return format!("err:save:{}", svc_err(&e));
                 }
+                w.saved_now = true;
+            }
+            match r {
+                Ok(names) => format!("ok:[{}]", names.iter().map(|n| num_suffix(n)).collect::<Vec<_>>().join(",")),
                 Err(e) => {
                     let m = format!("{e}");
-                    if let Some(p) = m.strip_prefix("Port ").and_then(|r| r.split(' ').next()) {
+                    if let Some(p) = m.strip_prefix("Port ").filter(|_| m.contains("requested for more than one")).and_then(|r| r.split(' ').next()) {
+                        format!("err:port-requested-twice:{p}")
+                    } else if let Some(p) = m.strip_prefix("Port ").and_then(|r| r.split(' ').next()) {
                         format!("err:port-in-use:{p}")
                     } else if m.contains("does not match the number of ports") {
                         "err:count-mismatch".into()
@@ -776,11 +885,13 @@ fn exec_op(w: &mut World, ws: &[&str]) -> String {
                 }
             };
             drop(sm);
-            // the caller in cmd/node.rs: start/stop/remove save after Ok only; upgrade saves on Ok and on Err
-            if ws[0] == "upgrade" || result.starts_with("ok") {
+            // the caller in cmd/node.rs saves in the Ok / Err arm of the operation's result where the source does
+            // (`UpgradedButNotStarted` is an Ok of ServiceManager::upgrade)
+            if caller_saves(ws[0], result.starts_with("ok")) {
                 if let Err(e) = w.reg.save() {
                     return format!("err:save:{}", svc_err(&e));
                 }
+                w.saved_now = true;
             }
             result
         }
@@ -817,12 +928,16 @@ fn exec_op(w: &mut World, ws: &[&str]) -> String {
             let fail = kv(rest, "fail").and_then(b01).unwrap_or(false);
             // `antctl status --json [--fail]`: status_report = full refresh (real RpcClient per service -> the endpoints
             // above) + the summary; cmd::node::status saves the registry after Ok only
-            match w.rt.block_on(status_report(&mut w.reg, &ctl, false, true, fail, false)) {
+            let r = w.rt.block_on(status_report(&mut w.reg, &ctl, false, true, fail, false));
+            if caller_saves("status", r.is_ok()) {
+                if let Err(e) = w.reg.save() {
+                    return format!("err:save:{}", svc_err(&e));
+                }
+                w.saved_now = true;
+            }
+            match r {
                 Ok(()) => {
                     w.killed = false;
-                    if let Err(e) = w.reg.save() {
-                        return format!("err:save:{}", svc_err(&e));
-                    }
                     "ok".into()
                 }
                 Err(MgrError::ServiceNotRunning(_)) => {
@@ -843,9 +958,12 @@ fn exec_op(w: &mut World, ws: &[&str]) -> String {
             ant_node_manager::verif::set_service_control(Arc::new(ctl.clone()));
             let r = w.rt.block_on(ant_node_manager::rpc::restart_node_service(&mut w.reg, peer, retain));
             ant_node_manager::verif::clear_service_control();
-            // antctld's restart_handler: "make sure to save the state even if the above fn fails"
-            if let Err(e) = w.reg.save() {
-                return format!("err:save:{}", svc_err(&e));
+            // antctld's restart_handler: "make sure to save the state even if the above fn fails" — as read from the source
+            if caller_saves("daemonRestart", r.is_ok()) {
+                if let Err(e) = w.reg.save() {
+                    return format!("err:save:{}", svc_err(&e));
+                }
+                w.saved_now = true;
             }
             match r {
                 Ok(()) => "ok".into(),
@@ -905,6 +1023,7 @@ fn exec_op(w: &mut World, ws: &[&str]) -> String {
             match NodeRegistry::load(&w.reg.save_path.clone()) {
                 Ok(r) => {
                     w.reg = r;
+                    w.saved_now = true;
                     "ok".into()
                 }
                 Err(e) => format!("err:load:{}", svc_err(&e)),
@@ -966,6 +1085,8 @@ struct OpInfo<'a> {
     post: &'a (Vec<Snap>, Vec<Proc>),
     killed: bool,
     file: &'a Result<NodeRegistry, String>,
+    /// the op ran as a whole antctl invocation (`cmd <op>`): `pre` is the state after load + partial refresh
+    is_cmd: bool,
 }
 
 fn oracle(w: &World, info: &OpInfo, history: &[String], out: &mut Out) {
@@ -1085,9 +1206,15 @@ fn oracle(w: &World, info: &OpInfo, history: &[String], out: &mut Out) {
         if let Ok(i) = i.parse::<usize>() {
             if !failed && i < s0.len() {
                 let x = &s0[i];
-                if x.status != ServiceStatus::Running && alive(p0, &x.bin) {
+                // a whole `antctl stop|remove` has loaded and refreshed the registry first: no excuse (an unrecorded
+                // live process was recorded by the refresh); the bare ServiceManager call is judged only when the
+                // service had no unrecorded live process at entry (K-s-orphan)
+                if !info.is_cmd && x.status != ServiceStatus::Running && alive(p0, &x.bin) {
                     out.count("oracle-skip:stop-remove-with-orphan-process");
                 } else {
+                    if info.is_cmd {
+                        out.count("oracle:cmd-stop-remove-judged");
+                    }
                     if alive(p1, &x.bin) {
                         out.oracle_fail("stop-remove-leave-nothing", &hist, &format!("{} succeeded on {} but its process is still alive", info.ws[0], x.name));
                     }
@@ -1116,6 +1243,51 @@ fn oracle(w: &World, info: &OpInfo, history: &[String], out: &mut Out) {
             }
             out.count("oracle:requested-port-conflict");
         }
+        // ... and a port requested twice in one add (two of the node / metrics / RPC ranges share it) would be recorded
+        // by two of the new services, or twice by one: refused as well
+        let mut seen = BTreeSet::new();
+        if let Some(p) = requested.iter().find(|p| !seen.insert(**p)) {
+            if !failed || s1 != s0 || info.calls != 0 {
+                out.oracle_fail("requested-port-refused", &hist, &format!("port {p} is requested for two of the node / metrics / RPC ports of the new services but the add was not refused cleanly ({})", info.result));
+            }
+            out.count("oracle:requested-port-twice");
+        }
+        // post-state: no two recorded ports are equal — over all ports of the services recorded before and the
+        // REQUESTED ports of the new ones (a port handed out by get_available_port is whatever the OS says is free; the
+        // code compares it with nothing: declared), provided the recorded ports were pairwise distinct before (the
+        // daemon's replacement service shares its RPC port with the service it replaces: K-s-rpcshare)
+        let mut all: Vec<(String, u16)> = s0.iter().flat_map(|x| x.ports.iter().map(|p| (x.name.clone(), *p))).collect();
+        let mut d = BTreeSet::new();
+        if all.iter().all(|(_, p)| d.insert(*p)) {
+            for x in s1.iter().skip(s0.len()) {
+                let n = w.reg.nodes.iter().find(|n| n.service_name == x.name);
+                for (k, port) in [("mp", n.and_then(|n| n.metrics_port)), ("np", n.and_then(|n| n.node_port)), ("rp", n.map(|n| n.rpc_socket_addr.port()))] {
+                    if let (Some(port), Some(Some(Some(_)))) = (port, kv(rest, k).map(parse_range)) {
+                        all.push((x.name.clone(), port));
+                    }
+                }
+            }
+            let mut d = BTreeMap::new();
+            for (name, p) in &all {
+                if let Some(other) = d.insert(*p, name.clone()) {
+                    out.oracle_fail("no-two-services-share-a-port", &hist, &format!("after the add port {p} is recorded for {other} and for {name}"));
+                }
+            }
+            out.count("oracle:ports-judged");
+        } else {
+            out.count("oracle-skip:ports-shared-before-the-add");
+        }
+    }
+    // the registry FILE: a service recorded Running there has a live process with the recorded pid — after every
+    // operation, whatever its outcome and whatever faults it met (only outside events excuse the file, until a registry
+    // refreshed after them is saved)
+    if let (Ok(file), false) = (info.file, w.file_stale) {
+        for n in file.nodes.iter() {
+            if n.status == ServiceStatus::Running && !p1.iter().any(|p| p.exe == n.antnode_path && Some(p.pid) == n.pid) {
+                out.oracle_fail("running-has-process-file", &hist, &format!("the registry file records {} Running with pid {:?} but no such live process (the next antctl / antctld invocation starts from this)", n.service_name, n.pid));
+            }
+        }
+        out.count("oracle:file-running-judged");
     }
     // registry save -> load identity of the serialisation itself (to a side file: the registry file proper is an
     // observable and is never written by the oracle)
@@ -1173,13 +1345,13 @@ fn oracle(w: &World, info: &OpInfo, history: &[String], out: &mut Out) {
             //     records ("we save the node registry for each service"), the commands after a successful operation,
             //     `upgrade` always.
             let recorded_new = s1.len() > s0.len();
-            let claims_saved = match info.ws.first().copied() {
-                Some("add") => !failed || recorded_new,
-                Some("start") | Some("stop") | Some("remove") | Some("refresh-full") => !failed,
-                Some("upgrade") | Some("drestart") => info.result != "err:no-such-service" && info.result != "bad-op",
-                Some("saveload") | Some("reload") => !failed,
-                _ => false,
-            };
+            // (the callers' saves are where the source has them — flags; add_node's own saves are the code under test)
+            let claims_saved = w.saved_now
+                || match info.ws.first().copied() {
+                    Some("add") => recorded_new,
+                    Some("reload") => !failed,
+                    _ => false,
+                };
             if claims_saved {
                 let a = serde_json::to_value(&w.reg).expect("json");
                 let b = serde_json::to_value(&file).expect("json");
@@ -1229,6 +1401,16 @@ impl Runner {
             return ("ok".into(), 0);
         }
         self.history.push(line.to_string());
+        if let Some(r) = probe(&mut self.world, &ws) {
+            // (observations: no registry dump, not compared with the model)
+            return (r, 0);
+        }
+        // `cmd <op>`: the head of the antctl invocation first; pre-state, oracle and fault oracle are those of `<op>`
+        let is_cmd = ws.first() == Some(&"cmd");
+        let ws: Vec<&str> = if is_cmd { ws[1..].to_vec() } else { ws };
+        if is_cmd && !matches!(ws.first(), Some(&"add" | &"start" | &"stop" | &"remove" | &"upgrade" | &"refresh-full")) {
+            return ("bad-op".into(), 0);
+        }
         let faults = if matches!(ws.first(), Some(&"add" | &"start" | &"stop" | &"remove" | &"upgrade" | &"drestart")) {
             match parse_faults(&ws) {
                 Some(f) => f,
@@ -1247,25 +1429,30 @@ impl Runner {
             os.faults = faults;
             os.calls = 0;
         }
+        self.world.saved_now = false;
+        let entry = if is_cmd {
+            let w = &mut self.world;
+            catch_unwind(AssertUnwindSafe(|| cmd_entry(w, &ws))).unwrap_or_else(|_| Err("panic".into()))
+        } else {
+            Ok(())
+        };
         let pre = snapshot(&self.world);
         let w = &mut self.world;
-        let result = catch_unwind(AssertUnwindSafe(|| exec_op(w, &ws))).unwrap_or_else(|_| "panic".into());
+        let result = match entry {
+            Ok(()) => catch_unwind(AssertUnwindSafe(|| exec_op(w, &ws))).unwrap_or_else(|_| "panic".into()),
+            Err(r) => r,
+        };
         let calls = self.world.os.lock().unwrap().calls;
         let post = snapshot(&self.world);
-        // a call that had its effect and then reported failure: what the command did not get to save is now behind
-        // reality (the in-memory registry must still be consistent: that is judged)
-        if kv(&ws, "faults").map_or(false, |f| f.contains('2')) {
-            self.world.file_stale = true;
-            if matches!(ws.first().copied(), Some("add") | Some("drestart")) {
-                self.world.unrecorded_install = true;
-            }
+        // an `install` that wrote its definition and then reported failure: nothing can know that definition
+        // (a call that has its effect and then reports failure does NOT excuse the file otherwise: whatever a command
+        //  kills it must record and save — clause running-has-process-file)
+        if kv(&ws, "faults").map_or(false, |f| f.contains('2')) && matches!(ws.first().copied(), Some("add") | Some("drestart")) {
+            self.world.unrecorded_install = true;
         }
-        let saved_by_caller = match ws.first().copied() {
-            Some("add") | Some("start") | Some("stop") | Some("remove") | Some("saveload") | Some("refresh-full") => result.starts_with("ok"),
-            Some("upgrade") | Some("drestart") => result != "err:no-such-service" && result != "bad-op",
-            _ => false,
-        };
-        if saved_by_caller && !self.world.killed {
+        // the file is stale only through outside events (kill / restart-outside), until a registry that was refreshed
+        // after them is saved
+        if self.world.saved_now && !self.world.killed {
             self.world.file_stale = false;
         }
         if out.is_none() {
@@ -1274,10 +1461,10 @@ impl Runner {
         }
         let file = load_file(&self.world);
         if let Some(out) = out {
-            let info = OpInfo { ws: &ws, result: &result, calls, pre: &pre, post: &post, killed: self.world.killed, file: &file };
+            let info = OpInfo { ws: &ws, result: &result, calls, pre: &pre, post: &post, killed: self.world.killed, file: &file, is_cmd };
             oracle(&self.world, &info, &self.history, out);
             let class = result.split(':').take(2).collect::<Vec<_>>().join(":");
-            out.count(&format!("{}:{}", ws.first().unwrap_or(&""), class));
+            out.count(&format!("{}{}:{}", if is_cmd { "cmd-" } else { "" }, ws.first().unwrap_or(&""), class));
         }
         (format!("{result} calls={calls} | {}", dump(&self.world, &file)), calls)
     }
@@ -1286,9 +1473,18 @@ impl Runner {
 // ---------------------------------------------------------------------------------------------
 // generators
 // ---------------------------------------------------------------------------------------------
+/// the operation word of a line (`cmd stop 0` -> `stop`)
+fn op_word(line: &str) -> &str {
+    let mut it = line.split(' ');
+    match it.next() {
+        Some("cmd") => it.next().unwrap_or(""),
+        Some(w) => w,
+        None => "",
+    }
+}
 fn with_faults(op: &str, bits: &[u8]) -> String {
     let head = op.split(" faults=").next().unwrap_or(op);
-    if !["add", "start", "stop", "remove", "upgrade", "drestart", "refresh-full"].contains(&head.split(' ').next().unwrap_or("")) {
+    if !["add", "start", "stop", "remove", "upgrade", "drestart", "refresh-full"].contains(&op_word(head)) {
         return op.to_string();
     }
     let f: String = if bits.is_empty() { "-".into() } else { bits.iter().map(|b| (b'0' + *b) as char).collect() };
@@ -1363,6 +1559,15 @@ fn random_add(rng: &mut Rng) -> String {
 }
 
 fn random_op(rng: &mut Rng, nsvc: usize) -> String {
+    let o = random_bare_op(rng, nsvc);
+    // a third of the commands as whole antctl invocations
+    if ["add", "start", "stop", "remove", "upgrade", "refresh-full"].contains(&op_word(&o)) && rng.chance(1, 3) {
+        format!("cmd {o}")
+    } else {
+        o
+    }
+}
+fn random_bare_op(rng: &mut Rng, nsvc: usize) -> String {
     let extra = if rng.chance(1, 20) { 1 } else { 0 };
     let i = rng.below(nsvc.max(1) as u64 + extra);
     match rng.below(20) {
@@ -1407,7 +1612,7 @@ fn expand(base: &[String], rng: &mut Rng, pairs: usize, out_lines: &mut Vec<Stri
     // one extra position per op: a fault may lengthen/shorten the call sequence
     let mut places: Vec<(usize, usize)> = vec![];
     for (k, c) in counts.iter().enumerate() {
-        let head = base[k].split(' ').next().unwrap_or("");
+        let head = op_word(&base[k]);
         if ["add", "start", "stop", "remove", "upgrade", "drestart", "refresh-full"].contains(&head) {
             let extra = if head == "upgrade" || head == "add" || head == "drestart" { 2 } else { 0 };
             for j in 0..(*c + extra) {
@@ -1498,6 +1703,18 @@ fn generate(seed: u64, n: u64) -> Vec<String> {
         // K-s-orphan: RPC failure after the process launched
         vec!["reset", "add count=1 np=- mp=- rp=- metrics=0 ver=1 faults=-", "start 0 ct=0 faults=01", "stop 0 faults=-"],
         vec!["reset", "add count=1 np=- mp=- rp=- metrics=0 ver=1 faults=-", "start 0 ct=0 faults=001", "remove 0 keep=1 faults=-", "refresh"],
+        // audit C19-1: a stop that kills and then reports failure must reach the FILE too (cmd::node::stop saved after Ok
+        // only: the file kept Running + the pid of a dead process, and so did the next invocation)
+        vec!["reset", "add count=1 np=- mp=- rp=- metrics=0 ver=1 faults=-", "start 0 ct=0 faults=-", "stop 0 faults=2", "reload"],
+        vec!["reset", "add count=1 np=- mp=- rp=- metrics=0 ver=1 faults=-", "start 0 ct=0 faults=-", "cmd stop 0 faults=2", "cmd start 0 ct=0 faults=-"],
+        vec!["reset", "add count=1 np=- mp=- rp=- metrics=0 ver=1 faults=-", "start 0 ct=0 faults=-", "cmd upgrade 0 force=0 start=1 ver=2 ct=0 faults=01", "reload", "cmd upgrade 0 force=0 start=1 ver=2 ct=0 faults=2"],
+        // audit C19-3: whole antctl invocations; the refresh in front records an unrecorded live process (K-s-orphan), so
+        // a successful `antctl stop` / `antctl remove` leaves nothing; a Removed service is not found
+        vec!["reset", "add count=1 np=- mp=- rp=- metrics=0 ver=1 faults=-", "start 0 ct=0 faults=01", "cmd stop 0 faults=-", "cmd remove 0 keep=1 faults=-", "cmd start 0 ct=0 faults=-", "refresh"],
+        vec!["reset", "add count=1 np=- mp=- rp=- metrics=0 ver=1 faults=-", "start 0 ct=0 faults=001", "cmd remove 0 keep=1 faults=-", "cmd stop 0 faults=-", "cmd remove 0 keep=0 faults=-", "cmd remove 0 keep=0 faults=-"],
+        vec!["reset", "cmd add count=2 np=- mp=- rp=- metrics=0 ver=1 faults=001", "cmd add count=1 np=- mp=- rp=- metrics=0 ver=1 faults=-", "cmd start 1 ct=1 faults=-", "kill 1", "cmd refresh-full fail=1 faults=-", "cmd upgrade 1 force=1 start=1 ver=1 ct=0 faults=-", "cmd refresh-full fail=0 faults=-"],
+        // audit C19-2: requested ranges that share a port (between two new services; within one new service)
+        vec!["reset", "add count=2 np=8000-8001 mp=8001-8002 rp=- metrics=0 ver=1 faults=-", "add count=1 np=8000 mp=- rp=8000 metrics=0 ver=1 faults=-", "add count=2 np=8000-8001 mp=8002-8003 rp=8004-8005 metrics=0 ver=1 faults=-"],
         // port clashes
         vec!["reset", "add count=1 np=8000 mp=- rp=- metrics=0 ver=1 faults=-", "add count=1 np=- mp=- rp=8000 metrics=0 ver=1 faults=-"],
         vec!["reset", "add count=1 np=- mp=- rp=- metrics=0 ver=1 faults=-", "start 0 ct=0 faults=-", "add count=1 np=- mp=40100 rp=- metrics=0 ver=1 faults=-"],
@@ -1586,7 +1803,88 @@ fn generate(seed: u64, n: u64) -> Vec<String> {
             }
         }
     }
+    // requested ranges against each other: every pair of port kinds, counts 1..3, every offset from "k below" to "k above"
+    // (overlapping for |d| < k, disjoint otherwise), on an empty registry and next to a recorded service
+    for (a, b) in [("np", "mp"), ("np", "rp"), ("mp", "rp")] {
+        for k in 1..=3i64 {
+            for d in -k..=k {
+                for with_third in [false, true] {
+                    let rng_of = |start: i64| if k == 1 { format!("{start}") } else { format!("{}-{}", start, start + k - 1) };
+                    let f = |kind: &str| {
+                        if kind == a {
+                            rng_of(8020)
+                        } else if kind == b {
+                            rng_of(8020 + d)
+                        } else if with_third {
+                            rng_of(8040)
+                        } else {
+                            "-".to_string()
+                        }
+                    };
+                    lines.push("reset".into());
+                    if with_third {
+                        lines.push(with_faults("add count=1 np=8100 mp=- rp=- metrics=1 ver=1", &[]));
+                    }
+                    lines.push(with_faults(&format!("add count={k} np={} mp={} rp={} metrics=0 ver=1", f("np"), f("mp"), f("rp")), &[]));
+                    lines.push(with_faults("add count=1 np=8020 mp=- rp=- metrics=0 ver=1", &[]));
+                }
+            }
+        }
+    }
     if std::env::var("C19_GEN_STATS").is_ok() { eprintln!("gen: after port clashes {}", lines.len()); }
+    // whole antctl invocations (`cmd ..`: load, partial refresh, selection, operation, save as the source has them) from
+    // an added and from a running base, mixed with what makes the file and the refresh matter: bare starts (whose faults
+    // leave unrecorded live processes), outside events, daemon restarts; all op sequences of length <= 2, every
+    // single-fault placement of both kinds (for 2 services a seeded third)
+    for nsvc in 1..=2usize {
+        for running in [false, true] {
+            let mut alpha: Vec<String> = vec![];
+            for i in 0..nsvc {
+                alpha.push(format!("cmd start {i} ct=0"));
+                alpha.push(format!("cmd stop {i}"));
+                alpha.push(format!("cmd remove {i} keep=0"));
+                alpha.push(format!("cmd remove {i} keep=1"));
+                alpha.push(format!("cmd upgrade {i} force=0 start=1 ver=2 ct=0"));
+                alpha.push(format!("start {i} ct=0"));
+                alpha.push(format!("kill {i}"));
+                if running {
+                    alpha.push(format!("restart-outside {i}"));
+                    alpha.push(format!("reload|drestart {i} retain=1"));
+                }
+            }
+            alpha.push("cmd refresh-full fail=0".into());
+            alpha.push("cmd add count=1 np=- mp=- rp=- metrics=0 ver=1".into());
+            let mut prefix = vec![format!("cmd add count={nsvc} np=- mp=- rp=- metrics=0 ver=1")];
+            if running {
+                for i in 0..nsvc {
+                    prefix.push(format!("cmd start {i} ct=0"));
+                }
+            }
+            let mut seqs: Vec<Vec<String>> = vec![vec![]];
+            for _ in 0..2 {
+                let mut next = vec![];
+                for s in &seqs {
+                    for a in &alpha {
+                        let mut t = s.clone();
+                        t.push(a.clone());
+                        next.push(t);
+                    }
+                }
+                for s in &next {
+                    let mut base = prefix.clone();
+                    base.extend(s.iter().cloned());
+                    if nsvc == 1 || s.len() < 2 || rng.chance(1, if thorough { 1 } else { 3 }) {
+                        expand(&base, &mut rng, 0, &mut lines, 64, if thorough || nsvc == 1 { 2 } else { 1 });
+                    } else {
+                        lines.push("reset".into());
+                        lines.extend(base.iter().flat_map(|e| e.split('|')).map(|l| with_faults(l, &[])));
+                    }
+                }
+                seqs = next;
+            }
+        }
+    }
+    if std::env::var("C19_GEN_STATS").is_ok() { eprintln!("gen: after command family {}", lines.len()); }
     // the same from a RUNNING base: prefix add + start of every service, then all op sequences up to depth 2 with all
     // single-fault placements (a stop/remove/upgrade of a running service whose process died needs start; kill; <op>)
     for nsvc in 1..=2usize {
